@@ -175,6 +175,8 @@ type aggOb struct {
 	ok      bool
 	answer  string
 	secs    float64
+	maxq    float64 // slowest single path query
+	retried int
 	backend string
 	pos     string
 	smoke   bool
@@ -197,6 +199,12 @@ func aggregate(res []*Result) []*aggOb {
 		}
 		a.n++
 		a.secs += r.Seconds
+		if r.Seconds > a.maxq {
+			a.maxq = r.Seconds
+		}
+		if r.Retried {
+			a.retried++
+		}
 		a.results = append(a.results, r)
 		if a.smoke {
 			// vacuity: at least one path must NOT be unsat
